@@ -277,6 +277,23 @@ func (f *Fixture) ForceUnlock(ids []string) {
 	}
 }
 
+// PurgeDead is cleanup after the verdict: the records of connections the case made
+// fail are taken out of the client table and their mutexes released, so that the
+// handlers of the remaining clients can end (their farewell broadcast would otherwise
+// park on a record whose mutex was left locked) and the teamserver can be reused.
+func (f *Fixture) PurgeDead(addrs []string) {
+	for _, a := range addrs {
+		if id, cl := f.ClientByAddr(a); id != "" {
+			f.TS.Clients.Delete(id)
+			if !cl.Mutex.TryLock() {
+				cl.Mutex.Unlock()
+			} else {
+				cl.Mutex.Unlock()
+			}
+		}
+	}
+}
+
 // Quiesce waits until no goroutine of the case is left (count back at the baseline
 // measured when the teamserver had just started).
 func (f *Fixture) Quiesce(d time.Duration) bool {
